@@ -242,6 +242,22 @@ def rootcache_shard(acc, seed: int, part: int) -> None:
             n += 1
             if kind != "ok" or bytes(val) != PT:
                 acc.violate("rootcache.edge-octets", ["rootcache", part, "edge", edge.hex(), where], {"outcome": kind, "value": repr(val)[:120]})
+    # the root key handed to load_key as bytearray / memoryview (accepted types), and left untouched by it
+    for form in (bytearray, memoryview, lambda b_: memoryview(bytearray(b_))):
+        kb2 = d.bytes(64)
+        rk3 = rk._replace(key=kb2, rkid=d.uuid())
+        arg = form(kb2)
+        blob = cms.ref_encrypt(rk3, sids[1], PT, (361, 7, 9), cek=d.bytes(32), gcm_nonce_=d.bytes(12), key_nonce=d.bytes(32))
+        c3 = dpapi_ng.KeyCache()
+
+        def _load_and_open():
+            c3.load_key(key=arg, root_key_id=rk3.rkid, version=1, kdf_algorithm="SP800_108_CTR_HMAC", kdf_parameters=gkdi.pack_kdf_params(rk3.hash_name), secret_algorithm="DH", secret_parameters=bytearray(rk3.params()), private_key_length=512, public_key_length=2048)
+            return dpapi_ng.ncrypt_unprotect_secret(blob, cache=c3)
+
+        kind, val = seams.outcome_of(_load_and_open)
+        n += 1
+        if kind != "ok" or bytes(val) != PT or bytes(arg) != kb2:
+            acc.violate("rootcache.key-argument-form", ["rootcache", part, "form", getattr(form, "__name__", "memoryview-of-bytearray")], {"outcome": kind, "value": repr(val)[:120], "argument_unchanged": bytes(arg) == kb2})
     acc.ev(n)
     acc.nt_counted(n)
     acc.outcome("rootcache-ok", n)
